@@ -1,6 +1,7 @@
 ----------------------------- MODULE DlisLogical -----------------------------
 (* RP66V1 logical files (TotalDepth.RP66V1.core.LogicalFile.LogicalIndex): the logical records of a storage unit are
-   grouped into logical files; a FILE-HEADER record starts a new logical file, the record after it must be an ORIGIN,
+   grouped into logical files; a FILE-HEADER record starts a new logical file, the record after it must be an ORIGIN
+   (more ORIGIN-type records may follow anywhere: they are tables like any other),
    encrypted records are skipped, indirectly formatted records are attached to the current file.
    Record kinds: "FH" file header, "OR" origin, "EF" any other explicitly formatted record, "IF" frame data,
    "XE" / "XI" encrypted explicit / indirect records.
@@ -17,7 +18,7 @@ RECURSIVE NextPlain(_, _)
 NextPlain(s, k) == IF k > Len(s) THEN 0 ELSE IF s[k] \in {"XE", "XI"} THEN NextPlain(s, k + 1) ELSE k
 Conformant(s) == /\ Len(s) >= 2 /\ s[1] = "FH"
                  /\ \A k \in 1..Len(s) : s[k] = "FH" => (NextPlain(s, k + 1) # 0 /\ s[NextPlain(s, k + 1)] = "OR")
-                 /\ \A k \in 1..Len(s) : s[k] = "OR" => \E j \in 1..(k - 1) : s[j] = "FH" /\ NextPlain(s, j + 1) = k
+                 \* further ORIGIN (or WELL-REFERENCE) records anywhere later in the file are conformant: RP66V1 asks for at least one
 Init == /\ recs \in UNION {[1..n -> Kinds] : n \in 2..MaxRecs} /\ Conformant(recs)
         /\ i = 1 /\ files = <<>> /\ bad = ""
 Step == /\ i <= Len(recs)
